@@ -300,8 +300,21 @@ class JsonHistoryGC(threading.Thread):
                     hist = lj.load()
                     lj.close()
                     hist["locked"] = False
-                    with open(f, "w", newline="\n", encoding="utf-8") as fp:
-                        xlj.ljdump(hist, fp, sort_keys=True)
+                    # Write to a temp file and rename it into place, so that a
+                    # crash or a failed write never truncates the saved history.
+                    fd, tmpname = tempfile.mkstemp(
+                        dir=os.path.dirname(f) or ".", suffix=".json.tmp"
+                    )
+                    try:
+                        with os.fdopen(fd, "w", newline="\n", encoding="utf-8") as fp:
+                            xlj.ljdump(hist, fp, sort_keys=True)
+                        os.replace(tmpname, f)
+                    except BaseException:
+                        try:
+                            os.unlink(tmpname)
+                        except OSError:
+                            pass
+                        raise
                     lj = xlj.LazyJSON(f, reopen=False)
                 if only_unlocked and lj.get("locked", False):
                     continue
